@@ -245,6 +245,13 @@ impl<'tcx> Cx<'tcx> {
                 if let Const::Unevaluated(u, _) = c.const_ {
                     j.comma();
                     j.kv_str("uneval", &path(self.tcx, u.def));
+                    if u.promoted.is_none() && u.args.is_empty() {
+                        let env = TypingEnv::fully_monomorphized();
+                        if let Some(si) = c.const_.try_eval_scalar_int(self.tcx, env) {
+                            j.comma();
+                            j.kv_str("int", &format!("{}", si.to_bits_unchecked()));
+                        }
+                    }
                     if let Some(pr) = u.promoted {
                         j.comma();
                         j.kv_num("promoted", pr.as_usize());
